@@ -10,24 +10,24 @@ sys.path.insert(0, os.path.dirname(os.path.abspath(__file__)))
 from mutsample import candidates  # noqa: E402
 
 MAP = {
-    "src/fetch.c": ["C01", "C16", "C08", "C11", "C15"],
-    "src/element.c": ["C04", "C01", "C03", "C08", "C14", "C15"],
+    "src/fetch.c": ["C01", "C16", "C08", "C11", "C15", "C07"],
+    "src/element.c": ["C04", "C01", "C03", "C08", "C14", "C15", "C07"],
     "src/router.c": ["C03", "C14", "C05", "C07", "C02"],
     "src/peer.c": ["C05", "C07", "C06", "C02"],
-    "src/parse.c": ["C02", "C09", "C06"],
-    "src/response.c": ["C02", "C03", "C15"],
-    "src/config.c": ["C02", "C06"],
+    "src/parse.c": ["C02", "C09", "C06", "C07"],
+    "src/response.c": ["C02", "C03", "C15", "C07"],
+    "src/config.c": ["C02", "C06", "C07"],
     "src/info.c": ["C02", "C07"],
     "src/authenticate.c": ["C08", "C20", "C07"],
     "src/posix/auth_file.c": ["C20", "C08", "C15"],
-    "src/groups.c": ["C08", "C04"],
-    "src/timer.c": ["C14", "C03"],
-    "src/buffered_socket.c": ["C10", "C09", "C11", "C05", "C12"],
+    "src/groups.c": ["C08", "C04", "C07"],
+    "src/timer.c": ["C14", "C03", "C07"],
+    "src/buffered_socket.c": ["C10", "C09", "C11", "C05", "C12", "C07"],
     "src/socket_peer.c": ["C09", "C05", "C10", "C07"],
-    "src/websocket.c": ["C12", "C19", "C05", "C13", "C10"],
+    "src/websocket.c": ["C12", "C19", "C05", "C13", "C10", "C07"],
     "src/websocket_peer.c": ["C12", "C05", "C07", "C15"],
-    "src/http_connection.c": ["C13", "C12", "C15"],
-    "src/http_server.c": ["C13", "C12"],
+    "src/http_connection.c": ["C13", "C12", "C15", "C07"],
+    "src/http_server.c": ["C13", "C12", "C07"],
     "src/compression.c": ["C19"],
     "src/utf8_checker.c": ["C18", "C12"],
     "src/hashtable.h": ["C17", "C04", "C03"],
@@ -38,7 +38,7 @@ MAP = {
     "src/linux/eventloop_epoll.c": ["C14", "C11", "C09", "C05", "C07"],
     "src/linux/linux_io.c": ["C07", "C11", "C08", "C13", "C05"],
     "src/linux/timer_linux.c": ["C14", "C07", "C03"],
-    "src/posix/socket.c": ["C10", "C09", "C11"],
+    "src/posix/socket.c": ["C10", "C09", "C11", "C07"],
 }
 
 
